@@ -58,9 +58,14 @@ func (m *fakeMsg) Payload() interface{} {
 
 // fakeChan is a net.BroadcastChannel that hands messages straight to the registered handler.
 type fakeChan struct {
-	mu      sync.Mutex
-	handler func(net.Message)
-	selfPK  []byte // key stamped on messages sent through Send (signalDone)
+	mu       sync.Mutex
+	handlers []fakeHandler // like a real channel: every handler whose context is alive gets every message
+	selfPK   []byte        // key stamped on messages sent through Send (signalDone)
+}
+
+type fakeHandler struct {
+	ctx context.Context
+	h   func(net.Message)
 }
 
 func (c *fakeChan) Name() string { return "verif-c35" }
@@ -68,23 +73,32 @@ func (c *fakeChan) Send(ctx context.Context, m net.TaggedMarshaler, _ ...net.Ret
 	c.mu.Lock()
 	pk := c.selfPK
 	c.mu.Unlock()
-	c.deliver(&fakeMsg{pk: pk, payload: m})
+	c.deliver(func() net.Message { return &fakeMsg{pk: pk, payload: m} })
 	return nil
 }
 func (c *fakeChan) Recv(ctx context.Context, handler func(m net.Message)) {
 	c.mu.Lock()
-	c.handler = handler
+	c.handlers = append(c.handlers, fakeHandler{ctx, handler})
 	c.mu.Unlock()
 }
 func (c *fakeChan) SetUnmarshaler(func() net.TaggedUnmarshaler) {}
 func (c *fakeChan) SetFilter(net.BroadcastChannelFilter) error  { return nil }
-func (c *fakeChan) deliver(m net.Message) {
+
+// deliver hands a fresh copy of the message to every live handler; returns how many there were.
+func (c *fakeChan) deliver(mk func() net.Message) int {
 	c.mu.Lock()
-	h := c.handler
-	c.mu.Unlock()
-	if h != nil {
-		h(m)
+	var live []fakeHandler
+	for _, h := range c.handlers {
+		if h.ctx.Err() == nil {
+			live = append(live, h)
+		}
 	}
+	c.handlers = live
+	c.mu.Unlock()
+	for _, h := range live {
+		h.h(mk())
+	}
+	return len(live)
 }
 
 // fakeSigning: the address of a public key is the key itself.
@@ -193,6 +207,9 @@ func exec(op string) (string, string) {
 		_, ok5 := canon(sp[3], 1<<40)
 		A, ok6 := parseMsgs(sp[4])
 		B, ok7 := parseMsgs(sp[5])
+		if sp[5] == "nowait" && f[0] == "dones" {
+			B, ok7 = nil, true
+		}
 		if !(ok2 && ok3 && ok4 && ok5 && ok6 && ok7) || len(A)+len(B) > 400 {
 			return "bad-op", "bad"
 		}
@@ -209,8 +226,16 @@ func exec(op string) (string, string) {
 	var outs []string
 	tagset := map[string]bool{}
 	var order []string
+	// contexts of attempts that end without waitUntilAllDone stay alive (in the node: until the
+	// attempt's timeout block); they are cancelled when the case is over
+	var keep []context.CancelFunc
+	defer func() {
+		for _, c := range keep {
+			c()
+		}
+	}()
 	for _, sp := range specs {
-		o, t := runAttempt(dc, ch, operators, sp)
+		o, t := runAttempt(dc, ch, operators, sp, &keep)
 		if strings.HasPrefix(o, "HANG") {
 			return o, "hang"
 		}
@@ -229,16 +254,24 @@ func exec(op string) (string, string) {
 }
 
 // runAttempt: listen + deliveries + waitUntilAllDone of one attempt on the given check.
-func runAttempt(dc *tbtc.VerifC35DoneCheck, ch *fakeChan, operators []uint64, f []string) (string, string) {
+func runAttempt(dc *tbtc.VerifC35DoneCheck, ch *fakeChan, operators []uint64, f []string, keep *[]context.CancelFunc) (string, string) {
 	included, _ := parseSmall(f[0], 0, 255, true)
 	message, _ := canon(f[1], 1<<40)
 	attempt, _ := canon(f[2], 1<<40)
 	timeoutBlock, _ := canon(f[3], 1<<40)
 	A, _ := parseMsgs(f[4])
-	B, _ := parseMsgs(f[5])
+	noWait := f[5] == "nowait"
+	var B []dmsg
+	if !noWait {
+		B, _ = parseMsgs(f[5])
+	}
 
 	ctx, cancel := context.WithCancel(context.Background())
-	defer cancel()
+	if noWait {
+		*keep = append(*keep, cancel)
+	} else {
+		defer cancel()
+	}
 	members := make([]group.MemberIndex, len(included))
 	for i, m := range included {
 		members[i] = group.MemberIndex(m)
@@ -254,15 +287,33 @@ func runAttempt(dc *tbtc.VerifC35DoneCheck, ch *fakeChan, operators []uint64, f 
 				m.attempt, sigOf(m.sig), m.endBl)
 			return
 		}
-		ch.deliver(&fakeMsg{pk: opKey(m.op), payload: tbtc.VerifC35NewDoneMessage(
-			group.MemberIndex(m.sender), new(big.Int).SetUint64(m.message), m.attempt, sigOf(m.sig), m.endBl)})
+		ch.deliver(func() net.Message {
+			return &fakeMsg{pk: opKey(m.op), payload: tbtc.VerifC35NewDoneMessage(
+				group.MemberIndex(m.sender), new(big.Int).SetUint64(m.message), m.attempt, sigOf(m.sig), m.endBl)}
+		})
 	}
 	// a sentinel is a message of another type: the listener reads its payload (=> everything
 	// delivered before it has been fully processed) and skips it.
 	sentinel := func() chan struct{} {
 		c := make(chan struct{})
-		var once sync.Once
-		ch.deliver(&fakeMsg{payload: "sentinel", onRead: func() { once.Do(func() { close(c) }) }})
+		var mu sync.Mutex
+		reads, want, closed := 0, -1, false
+		check := func() {
+			if !closed && want >= 0 && reads >= want {
+				closed = true
+				close(c)
+			}
+		}
+		n := ch.deliver(func() net.Message {
+			var once sync.Once
+			return &fakeMsg{payload: "sentinel", onRead: func() {
+				once.Do(func() { mu.Lock(); reads++; check(); mu.Unlock() })
+			}}
+		})
+		mu.Lock()
+		want = n
+		check()
+		mu.Unlock()
 		return c
 	}
 	waitFor := func(c chan struct{}, alt <-chan struct{}) bool {
@@ -284,6 +335,10 @@ func runAttempt(dc *tbtc.VerifC35DoneCheck, ch *fakeChan, operators []uint64, f 
 		return "HANG-sentinel-A", "hang"
 	}
 	countA := dc.VerifC35DoneCount()
+	if noWait {
+		// the attempt fails before waitUntilAllDone is reached (signingAttemptFn error -> continue)
+		return "nowait/" + strconv.Itoa(countA), "nowait"
+	}
 
 	// waiter
 	type res struct {
@@ -620,6 +675,22 @@ func gen(r *hx.Rng, n int, tier string) []string {
 				specs = append(specs, fmt.Sprintf("%s %d %d %d %s %s", hx.JoinInts(inc2), message, attempt2, timeout2,
 					joinMsgs(ms[:cut]), joinMsgs(ms[cut:])))
 				prev = ms
+			}
+			if r.Chance(1, 2) {
+				// the first attempt fails before waitUntilAllDone: its listener is still around when
+				// the next attempt listens; its (valid) confirmations arrive during the next attempt
+				first := fmt.Sprintf("%s %d %d %d %s nowait", hx.JoinInts(included), message, attempt, timeoutBlock, joinMsgs(A2))
+				var late []dmsg
+				for _, m := range included {
+					late = append(late, good(m))
+				}
+				second := strings.Fields(specs[1])
+				if second[4] == "-" {
+					second[4] = joinMsgs(late)
+				} else {
+					second[4] += "," + joinMsgs(late)
+				}
+				specs[0], specs[1] = first, strings.Join(second, " ")
 			}
 			ops = append(ops, fmt.Sprintf("dones %s %s", hx.JoinInts(operators), strings.Join(specs, " ")))
 			continue
